@@ -1,3 +1,3 @@
 CONSTANTS MaxReqs = 3
 SPECIFICATION MCSpec
-INVARIANTS TypeOK CursorSync NoOverread OncePerRequest ResponsesFIFO CleanReject StreamExact TracerAlternates NothingAfterClose FinalIndependent
+INVARIANTS TypeOK CursorSync NoOverread OncePerRequest ResponsesFIFO CleanReject StreamExact TracerAlternates PairsBracket NothingAfterClose FinalIndependent
